@@ -10,7 +10,7 @@ def run_native(recipe, release=True):
     except Exception: return {'error': 'replay binary output not understood', 'stdout': p.stdout[-2000:], 'stderr': p.stderr[-2000:], 'rc': p.returncode}
 
 
-MESSAGE_FAMILY = ['', 'a', '\u00e9', 'a' * 15 + '\u00e9', 'a' * 16 + '\u20acuro', 'a' * 31 + '\U0001f600', '{"k":"Zo\u00eb"}', '\x00', 'a' * 63 + '\u00e9' + 'b' * 70000, '\x7f\u0080', ' a ', 'a\n']
+MESSAGE_FAMILY = ['', 'a', 'a=', 'dGVzdA==', '.', 'a.b', '\u00e9', 'a' * 15 + '\u00e9', 'a' * 16 + '\u20acuro', 'a' * 31 + '\U0001f600', '{"k":"Zo\u00eb"}', '\x00', 'a' * 63 + '\u00e9' + 'b' * 70000, '\x7f\u0080', ' a ', 'a\n']
 
 
 def confirm(ses, v):
@@ -210,6 +210,9 @@ def oracle_builder(seq, outs, want=('c13', 'c17')):
 def confirm_builder(ses, v, want):
     r = v['replay']; protos = [r['proto']] if r.get('proto') else ['v4.local', 'v3.public', 'v2.local', 'v1.local', 'v3.local', 'v1.public', 'v2.public', 'v4.public']
     seqs = sequences(int(r.get('maxlen', 3)))
+    # custom claims whose key differs from a default claim's key only by surrounding white space / case are claims of their own: the defaults stay what default() made them
+    for k_ in (' exp', 'exp ', 'iat ', '\tnbf', 'Exp', 'EXP', 'exp\n'):
+        seqs.append([['set', k_, '2999-01-01T00:00:00Z'], ['build']]); seqs.append([['set', k_, '2999-01-01T00:00:00Z'], ['build'], ['build']])
     for proto in protos:
         for s_ in seqs:
             if proto in ('v3.local', 'v4.local', 'v3.public', 'v4.public') and False: pass
@@ -327,8 +330,23 @@ def confirm_parser(ses, v, time_claims=False):
                     steps.append({'op': 'parser_run', 'proto': proto, 'layer': layer, 'default_parser': dflt, 'key': '$k_pk', 'footer': None, 'assertion': None, 'checks': checks,
                                   'validators': vals, 'tokens': ['$T%d' % i for i in order], 'out': name})
                     runs.append((name, layer, dflt, checks, vals, order))
+    # tokens that do not authenticate (payload edited, or the verifier holds another key): the parse fails and NO validator has seen anything
+    unauth = []
+    if not time_claims:
+        steps += key_steps(proto, {'key': '08' * 32, 'seed': '08' * 32}, 'k2')
+        steps += [{'op': 'mutate', 'in': '$T10', 'out': 'TB0', 'ops': [{'payload_xor': [6, 1]}]}, {'op': 'mutate', 'in': '$T10', 'out': 'TB1', 'ops': [{'payload_xor': [40, 0x80]}]}]
+        for layer in ('generic', 'prelude'):
+            nm = 'U_' + layer
+            steps.append({'op': 'parser_run', 'proto': proto, 'layer': layer, 'default_parser': False, 'key': '$k_pk', 'alt_key': '$k2_pk', 'alt_key_for': [2], 'footer': None, 'assertion': None, 'checks': [],
+                          'validators': [{'key': 'x', 'kind': 'accept', 'via': 'validate'}], 'tokens': ['$TB0', '$TB1', '$T10'], 'out': nm}); unauth.append(nm)
     out = run_native({'steps': steps, 'violated_if': []}); ses.native_runs = getattr(ses, 'native_runs', 0) + 1
-    tr = [t for t in (out.get('trace') or []) if 'parser_run' in t]
+    tr_all = [t for t in (out.get('trace') or []) if 'parser_run' in t]
+    for t in [t for t in tr_all if t['parser_run'] in unauth]:
+        for ri, res in enumerate(t['results']):
+            if res.get('parse') == 'ok' or res.get('validator_calls'):
+                v['native'] = {'proto': proto, 'violated': 'unauthenticated token #%d: parse %s, validator calls %s' % (ri, res.get('parse'), res.get('validator_calls'))}
+                v['what'] += ' [natively: %s %s, a token that does not authenticate (edited payload / other key): parse %s, validators saw %s]' % (proto, t['parser_run'][2:], res.get('parse'), str(res.get('validator_calls'))[:80]); return True
+    tr = [t for t in tr_all if t['parser_run'] not in unauth]
     if len(tr) != len(runs): v['native'] = {'error': 'replay trace incomplete', 'out': str(out)[:500]}; return None
     for (name, layer, dflt, checks, vals, order), t in zip(runs, tr):
         for idx, res in zip(order, t['results']):
@@ -430,6 +448,14 @@ def confirm_claims_roundtrip(ses, v):
     seqs.append(([['set', 'a', 1], ['set', 'b', None], ['remove', 'a'], ['build']], {'b': None}))
     seqs.append(([['set', 'iss', 'me'], ['set', 'sub', 's'], ['set', 'aud', 'au'], ['set', 'jti', 'id'], ['set', 'exp', '2031-01-01T00:00:00Z'], ['set', 'nbf', '2020-01-01T00:00:00Z'], ['set', 'iat', '2020-01-01T00:00:00Z'], ['build']],
                  {'iss': 'me', 'sub': 's', 'aud': 'au', 'jti': 'id', 'exp': '2031-01-01T00:00:00Z', 'nbf': '2020-01-01T00:00:00Z', 'iat': '2020-01-01T00:00:00Z'}))
+    # claim values of native Rust types: what comes back is the JSON rendering of that very value (the shortest decimal that reads back as the same f32, not its f64 widening)
+    try:
+        import numpy as _np
+        f32 = lambda x: float(str(_np.float32(x)))
+        for k, kind, val, want in (('price', 'f32', 19.99, f32(19.99)), ('r', 'f32', 0.1, f32(0.1)), ('h', 'f32', 0.5, 0.5), ('d', 'f64', 19.99, 19.99), ('n', 'i64', -7, -7), ('b', 'u8', 255, 255), ('t', 'bool', True, True),
+                                   ('xs', 'vec_f32', [0.1, 2.5, 19.99], [f32(0.1), 2.5, f32(19.99)]), ('o', 'opt_f32', 0.3, f32(0.3)), ('s', 'string', 'x', 'x')):
+            seqs.append(([['set_typed', k, kind, val], ['build']], {k: want}))
+    except ImportError: pass
     # histories with a build in the middle: every build must reflect the claims as they are at that moment
     import itertools
     ops = [['set', 'a', 1], ['set', 'a', 2], ['set', 'b', 'x'], ['remove', 'a'], ['build']]
@@ -449,7 +475,7 @@ def confirm_claims_roundtrip(ses, v):
         res = (out.get('trace') or [{}])[0].get('results')
         if res is None: v['native'] = out; return None
         for (seq, _), item in zip(seqs, res):
-            b = [o for o in item['outs'] if 'build' in o]; wants = model(seq)
+            b = [o for o in item['outs'] if 'build' in o]; wants = model(seq) if _ is None else [_]
             bad = None
             if len(b) != len(wants): bad = 'builds observed %d, expected %d' % (len(b), len(wants))
             for bi, want in zip(b, wants):
@@ -554,6 +580,13 @@ def confirm_history(ses, v):
             steps.append({'op': 'parser_run', 'proto': proto, 'layer': layer, 'default_parser': False, 'key': '$k_pk', 'footer': None, 'assertion': None, 'checks': [],
                           'validators': [{'key': 'sub', 'kind': 'accept', 'via': 'validate'}], 'tokens': ['$Ta', '$Ta', '$Tb', '$Ta'], 'out': 'V_' + layer})
             want['V_' + layer] = (['ok', 'ok', 'ok', 'ok'], 1)
+            if layer == 'generic':     # bulk setters between two parses: an expectation that does not match and a rejecting validator for the same key, registered after the first parse
+                steps.append({'op': 'parser_run', 'proto': proto, 'layer': layer, 'default_parser': False, 'key': '$k_pk', 'footer': None, 'assertion': None, 'checks': [], 'validators': [],
+                              'mid_extend': {'1': {'checks': [{'key': 'sub', 'value': 'zzz'}], 'validators': [{'key': 'sub', 'kind': 'reject'}]}}, 'tokens': ['$Ta', '$Ta', '$Tb'], 'out': 'X_' + layer})
+                want['X_' + layer] = (['ok', 'err', 'err'], None)
+                steps.append({'op': 'parser_run', 'proto': proto, 'layer': layer, 'default_parser': False, 'key': '$k_pk', 'footer': None, 'assertion': None, 'checks': [], 'validators': [],
+                              'mid_extend': {'1': {'checks': [{'key': 'sub', 'value': 'b'}]}}, 'tokens': ['$Ta', '$Ta', '$Tb'], 'out': 'Y_' + layer})
+                want['Y_' + layer] = (['ok', 'err', 'ok'], None)
         out = run_native({'steps': steps, 'violated_if': []}); ses.native_runs = getattr(ses, 'native_runs', 0) + 1
         for t in [t for t in (out.get('trace') or []) if 'parser_run' in t]:
             kinds = [r.get('parse') for r in t['results']]; exp_kinds, exp_calls = want.get(t['parser_run'], (None, None))
@@ -562,7 +595,7 @@ def confirm_history(ses, v):
             elif exp_calls is not None and any(len(r.get('validator_calls', [])) != exp_calls for r in t['results']): bad = 'validator calls per parse %s, expected %d each' % ([len(r.get('validator_calls', [])) for r in t['results']], exp_calls)
             if bad:
                 v['native'] = {'proto': proto, 'run': t['parser_run'], 'violated': bad}
-                v['what'] += ' [natively: %s one parser, %s: %s]' % (proto, 'check sub=a; parse a, b; check sub=b; parse a, b, b' if t['parser_run'].startswith('H_') else 'validator on sub; parse a, a, b, a', bad)
+                v['what'] += ' [natively: %s one parser, %s: %s]' % (proto, {'H': 'check sub=a; parse a, b; check sub=b; parse a, b, b', 'V': 'validator on sub; parse a, a, b, a', 'X': 'parse a; extend_check_claims(sub=zzz) + extend_validation_claims(sub: reject); parse a, b', 'Y': 'parse a; extend_check_claims(sub=b); parse a, b'}[t['parser_run'][0]], bad)
                 v['replay'] = {'kind': 'c15_history', 'proto': proto}; return True
     # time passes between two parses of one token by one default parser: a verdict remembered from the first parse must not outlive the token
     import datetime as dt, time as _t
@@ -615,7 +648,7 @@ PY_CONFIRM.update({'footer_compare': confirm_footer_compare})
 
 
 # ----------------------------------------------------------------------------- footer segment of produced tokens (C05, C08)
-FOOTER_FAMILY = ['', 'f', 'fo', 'foo', 'ab?', 'ab>', '~~~', 'key-id:~ops>prod', '{"kid":"k1","jku":"https://keys.example/jwks?v=2"}', '\u00ff\u00fe', '\u7b7e\u540d', 'a' * 100 + '?']
+FOOTER_FAMILY = ['', ' ', '\n', '\t ', 'f', 'fo', 'foo', 'ab?', 'ab>', '~~~', 'key-id:~ops>prod', '{"kid":"k1","jku":"https://keys.example/jwks?v=2"}', '\u00ff\u00fe', '\u7b7e\u540d', 'a' * 100 + '?']
 
 
 def confirm_footer_segment(ses, v):
@@ -659,7 +692,7 @@ def confirm_core_api(ses, v):
     for proto in ('v4.local', 'v4.public', 'v3.local'):
         m = {'key': '07' * 32, 'nonce': '09' * 32}
         steps = key_steps(proto, m); alts = []; i = 0
-        for ftxt, atxt, msg in (('kid:1', 'row=7', 'msg'), (' kid:1 ', 'row=7\n', ' m s g \n'), ('', ' ', '\tm')):
+        for ftxt, atxt, msg in (('kid:1', 'row=7', 'msg'), (' kid:1 ', 'row=7\n', ' m s g \n'), ('', ' ', '\tm'), ('f=', 'a==', 'user=alice&sig=dGVzdA=='), ('=', '.', '=')):
             mm = dict(m, footer=ftxt.encode().hex(), assertion=atxt.encode().hex(), message=msg.encode().hex())
             b = build_step(proto, mm, 'some', 'some', out='T%d' % i); b['times'] = 2; steps.append(b)       # token _0 from the builder, token _1 from its clone
             for j in (0, 1):
@@ -689,3 +722,76 @@ def confirm_rsa_pool(ses, v):
 
 
 PY_CONFIRM.update({'rsa_pool': confirm_rsa_pool})
+
+
+def confirm_key_ctor(ses, v):
+    """key wrappers built through the public constructors hand back exactly the bytes they were given"""
+    import os as _os
+    mb = ((v.get('replay') or {}).get('model') or {}).get('bytes')
+    cases = []
+    for proto, role, n in (('v2.public', 'public', 32), ('v4.public', 'public', 32), ('v2.public', 'private', 64), ('v4.public', 'private', 64), ('v3.public', 'private', 48),
+                           ('v1.local', 'sym', 32), ('v2.local', 'sym', 32), ('v3.local', 'sym', 32), ('v4.local', 'sym', 32)):
+        for fill in (0x00, 0xff, 0x5a): cases.append((proto, role, bytes([fill] * (n - 1) + [fill ^ 1]).hex()))
+    for tag in (2, 3): cases.append(('v3.public', 'public', bytes([tag] + [0x11] * 48).hex()))
+    for role in ('public', 'private'):
+        for n in (0, 1, 16, 24, 32, 269, 270, 271, 293, 294, 295, 512, 1190, 1217, 1218):
+            cases.append(('v1.public', role, bytes((i * 7 + n) % 256 for i in range(n)).hex()))
+        if isinstance(mb, str) and mb: cases.append(('v1.public', role, mb))
+    steps = [{'op': 'key_ctor', 'proto': p_, 'role': r_, 'bytes': h_, 'out': 'K%d' % i} for i, (p_, r_, h_) in enumerate(cases)]
+    out = run_native({'steps': steps, 'violated_if': []}); ses.native_runs = getattr(ses, 'native_runs', 0) + 1
+    tr = [t for t in (out.get('trace') or []) if 'key_ctor' in t]
+    if len(tr) != len(cases): v['native'] = {'error': 'replay trace incomplete', 'out': str(out)[:300]}; return None
+    for (p_, r_, h_), t in zip(cases, tr):
+        res = t.get('result', '')
+        if res.startswith('Ok(') and res[3:-1] != h_:
+            v['native'] = {'proto': p_, 'role': r_, 'input_len': len(h_) // 2, 'violated': 'constructed from %s..., holds %s...' % (h_[:24], res[3:27])}
+            v['what'] += ' [natively: %s %s key from %d bytes holds other bytes than it was given]' % (p_, r_, len(h_) // 2); v['replay'] = {'kind': 'key_ctor'}; return True
+        if res.startswith('Panic'):
+            v['native'] = {'proto': p_, 'role': r_, 'violated': 'constructor panics: ' + res[:80]}; v['what'] += ' [natively: %s %s key constructor panics on %d bytes]' % (p_, r_, len(h_) // 2); v['replay'] = {'kind': 'key_ctor'}; return True
+    return False
+
+
+PY_CONFIRM.update({'key_ctor': confirm_key_ctor})
+
+
+PROTOS_ALL = ['v1.local', 'v2.local', 'v3.local', 'v4.local', 'v1.public', 'v2.public', 'v3.public', 'v4.public']
+
+
+def confirm_verbatim(ses, v):
+    """an authentic token of Y whose header text is replaced by the header of another protocol X, presented to Y (same key): must be refused - also after X's own entry
+    point has been used in the same process (state shared between protocols)"""
+    r = v.get('replay') or {}; ys = [r['y']] if r.get('y') in PROTOS_ALL else PROTOS_ALL
+    m = {'key': '07' * 32, 'nonce': '09' * 32, 'message': '6d7367', 'footer': '66', 'assertion': ''}
+    for y in ys:
+        steps = key_steps(y, m) + [build_step(y, m, 'some', 'none', out='TY'), {'op': 'parse_core', 'proto': y, 'token': '$TY', 'key': '$k_pk', 'footer': 'f', 'assertion': None, 'out': 'RY'}]; alts = []
+        for rnd in (0, 1):
+            for xi, x in enumerate(p_ for p_ in PROTOS_ALL if p_ != y):
+                nm = '%d_%d' % (rnd, xi)
+                if rnd == 1:       # second round: X's own entry point has processed one of its own tokens first
+                    steps += key_steps(x, m, 'kx' + nm) if False else []
+                    kx = dict(m); steps += [dict(s_, out='kx' + nm) for s_ in key_steps(x, kx, 'kx' + nm)]
+                    steps += [dict(build_step(x, kx, 'some', 'none', out='TX' + nm, key='$kx%s_sk' % nm)),
+                              {'op': 'parse_core', 'proto': x, 'token': '$TX' + nm, 'key': '$kx%s_pk' % nm, 'footer': 'f', 'assertion': None, 'out': 'RXW' + nm}]
+                steps += [{'op': 'mutate', 'in': '$TY', 'out': 'L' + nm, 'ops': [{'set_header': x + '.'}]},
+                          {'op': 'parse_core', 'proto': y, 'token': '$L' + nm, 'key': '$k_pk', 'footer': 'f', 'assertion': None, 'out': 'RL' + nm}]
+                alts.append([{'var': 'RL' + nm, 'is': 'ok'}])
+        out = run_native({'steps': steps, 'violated_if': alts}); ses.native_runs = getattr(ses, 'native_runs', 0) + 1
+        if out.get('violated'):
+            hit = [t for t in (out.get('trace') or []) if 'parse_core' in t and t['parse_core'].startswith('RL') and str(t.get('result', '')).startswith('Ok')][:2]
+            v['native'] = {'y': y, 'violated': True, 'accepted': hit}; v['what'] += ' [natively: %s accepts its own token body under another protocol\'s header: %s]' % (y, str([(h['token'][:12], h['result'][:20]) for h in hit])[:200])
+            v['replay'] = {'kind': 'verbatim', 'y': y}; return True
+        if 'violated' not in out: v['native'] = out; return None
+        # fresh process per X: the very first token the process parses is X's own, then Y is shown its own token body under X's header
+        for x in (p_ for p_ in PROTOS_ALL if p_ != y):
+            steps = key_steps(y, m) + [build_step(y, m, 'some', 'none', out='TY')] + [dict(s_) for s_ in key_steps(x, m, 'kx')]
+            steps += [build_step(x, m, 'some', 'none', out='TX', key='$kx_sk'), {'op': 'parse_core', 'proto': x, 'token': '$TX', 'key': '$kx_pk', 'footer': 'f', 'assertion': None, 'out': 'RXW'},
+                      {'op': 'mutate', 'in': '$TY', 'out': 'L', 'ops': [{'set_header': x + '.'}]},
+                      {'op': 'parse_core', 'proto': y, 'token': '$L', 'key': '$k_pk', 'footer': 'f', 'assertion': None, 'out': 'RL'}]
+            out = run_native({'steps': steps, 'violated_if': [[{'var': 'RL', 'is': 'ok'}]]}); ses.native_runs = getattr(ses, 'native_runs', 0) + 1
+            if out.get('violated'):
+                v['native'] = {'y': y, 'x': x, 'violated': True}; v['what'] += ' [natively: in a process whose first parse was a %s token, %s accepts its own token body relabelled %s]' % (x, y, x)
+                v['replay'] = {'kind': 'verbatim', 'y': y}; return True
+    return False
+
+
+PY_CONFIRM.update({'verbatim': confirm_verbatim})
